@@ -1,6 +1,7 @@
 package props
 
 import (
+	"encoding/json"
 	"fmt"
 	"html"
 	"strings"
@@ -331,6 +332,40 @@ func (x *c16) splitJoin(r *core.Rand) {
 	}
 }
 
+// namedStringReceivers: a string is a string whatever its Go type is called (type Title string, json.Number):
+// every filter must treat it exactly as the plain string with the same characters, as receiver and as argument.
+func (x *c16) namedStringReceivers() {
+	type fa struct {
+		f    string
+		args []any
+	}
+	filters := []fa{{"size", nil}, {"upcase", nil}, {"downcase", nil}, {"capitalize", nil}, {"strip", nil}, {"lstrip", nil}, {"rstrip", nil}, {"append", []any{"x"}}, {"prepend", []any{"x"}},
+		{"slice", []any{1, 2}}, {"truncate", []any{3}}, {"truncatewords", []any{1}}, {"replace", []any{"l", "L"}}, {"replace_first", []any{"l", "L"}}, {"remove", []any{"l"}}, {"remove_first", []any{"l"}},
+		{"split", []any{" "}}, {"escape", nil}, {"escape_once", nil}, {"url_encode", nil}, {"url_decode", nil}, {"strip_html", nil}, {"strip_newlines", nil}, {"newline_to_br", nil}}
+	for _, str := range []string{"héllo wörld", "", " a b ", "<a&b>", "12", "line\nline", "x%20y"} {
+		for _, f := range filters {
+			plain := x.apply(f.f, str, f.args...)
+			for _, named := range []any{gen.NTitle(str), json.Number(str)} {
+				got := x.apply(f.f, named, f.args...)
+				x.c.Obs("laws_checked", 1)
+				x.c.Obs("named_string_receivers", 1)
+				if !got.Same(plain) {
+					x.bad(f.f, "a value of a named string type acts as the string it holds", named, f.args, got, plain.Brief())
+				}
+			}
+		}
+		// as arguments
+		for _, f := range []fa{{"append", nil}, {"prepend", nil}, {"remove", nil}, {"split", nil}} {
+			plain := x.apply(f.f, "a "+str+" b", str)
+			got := x.apply(f.f, "a "+str+" b", gen.NTitle(str))
+			x.c.Obs("laws_checked", 1)
+			if !got.Same(plain) {
+				x.bad(f.f, "an argument of a named string type acts as the string it holds", "a "+str+" b", []any{gen.NTitle(str)}, got, plain.Brief())
+			}
+		}
+	}
+}
+
 func (x *c16) nonStringReceivers() {
 	cases := []struct {
 		v    any
@@ -382,6 +417,7 @@ func runC16(c *core.Ctx) {
 	x := &c16{c: c, e: liquid.NewEngine(), t: map[string]*liquid.Template{}}
 	if c.Shard == 0 && c.Begin("non-string receivers") {
 		x.nonStringReceivers()
+		x.namedStringReceivers()
 		x.numberReceivers()
 	}
 	total := gen.CountStrings(len(c16Alpha), c.Pick(4, 5))
